@@ -1,6 +1,7 @@
 import Mathlib.Data.Rat.Floor
 import Splipy.Proto.Val
 import Splipy.Model.Basis
+import Splipy.Model.Object
 
 /-! Decoding helpers shared by the per-property drivers (everything at `K = ℚ`). -/
 
@@ -31,5 +32,38 @@ abbrev Handler := String → List Val → Option Val
 def bad : Val := .str "bad-op"
 
 def sideOfBool (b : Bool) : Side := if b then .right else .left
+
+end Splipy.Driver
+
+namespace Splipy.Driver
+open Splipy
+
+/-- `[[bases...],[shape incl. ncomp],[flat C-order],rational]` (see harness/vlib/gen.py `enc_object`). -/
+def decodeObj (v : Val) : Option (Obj ℚ) := do
+  let xs ← v.toList?
+  match xs with
+  | [bs, sh, flat, rat] =>
+      let bl ← bs.toList?
+      let bases ← bl.mapM decodeBasis
+      let shape ← sh.toNats?
+      let data ← flat.toRats?
+      let r ← rat.toBool?
+      some { bases := bases.toArray, cps := { shape := shape, data := data.toArray }, rational := r }
+  | _ => none
+
+def encodeTensor (t : Tensor ℚ) : Val := .list [Val.ofNats t.shape, ofArr t.data]
+
+def encodeObj (o : Obj ℚ) : Val :=
+  .list [.list (o.bases.toList.map encodeBasis), Val.ofNats o.cps.shape, ofArr o.cps.data, Val.ofBool o.rational]
+
+def ofExcept {α} (f : α → Val) : PyM α → Val
+  | .ok a => f a
+  | .error e => e.toVal
+
+def decodeRatLists (v : Val) : Option (List (List ℚ)) := do
+  let xs ← v.toList?
+  xs.mapM Val.toRats?
+
+def encodeMat (m : Mat ℚ) : Val := .list (m.toList.map ofArr)
 
 end Splipy.Driver
